@@ -15,6 +15,7 @@ from vt import h5common as h5
 
 PROPERTY = "C12"
 TITLE = "Every way of reading or continuing a file yields the same stream"
+TECHNIQUE = ('runtime monitoring: one stored event stream observed through every access path (chunk sizes, integer and slice indexing, held events, interleaved iterators, append sessions, FileGenerator) and compared with the sequential pass and the shadow model')
 ANCHORS = ["pyrex.io:EventIterator._load_data", "pyrex.io:HDF5Reader.__getitem__", "pyrex.io:HDF5Reader.__iter__", "pyrex.io:HDF5Writer.open",
            "pyrex.generation:FileGenerator._load_events", "pyrex.generation:FileGenerator._next_file", "pyrex.generation:FileGenerator.create_event"]
 RULE = ("one case = one add sequence of 2-12 events with different particle / ray / waveform counts (and rejected adds), "
